@@ -164,6 +164,40 @@ func programs() []*Program {
 		},
 		Cfg: func() *Config { return baseConfig("EX1", "EX2") }})
 
+	// time / duration pointers, a by-value message and bytes inside a nullable embedded message
+	add(&Program{Name: "P-embed-t", Quick: true,
+		File: func() *FileSpec {
+			et := msg("EmbT", nil, tsfld("XTs"), dufld("XDu"), tsfld("XTsV").nonnull(), mfld("XVal", "Leaf").nonnull(), fld("XRaw", TBytes))
+			return &FileSpec{Name: "p.proto", Msgs: []*M{leafMsg(), et,
+				msg("EX3", nil, fld("Own", TString), mfld("EmbT", "EmbT").embed())}}
+		},
+		Cfg: func() *Config { return baseConfig("EX3") }})
+
+	// sort: true - the generated statements follow the Go names, so the branches of two oneof groups
+	// and the flattened fields of an embedded message interleave with each other and with own fields
+	add(&Program{Name: "P-sorted", Quick: true,
+		File: func() *FileSpec {
+			lim := msg("Lim", nil, fld("Burst", TInt64), fld("Zone", TString))
+			srt := msg("Srt", []string{"Kind", "second_group"},
+				fld("Apple", TString).oneof(0), fld("Banana", TInt64).oneof(1), fld("Cherry", TString).oneof(0), fld("Date", TBool).oneof(1),
+				fld("Name", TString), mfld("Lim", "Lim").embed(), fld("Tags", TString).rep())
+			return &FileSpec{Name: "p.proto", Msgs: []*M{lim, srt}}
+		},
+		Cfg: func() *Config {
+			c := baseConfig("Srt")
+			c.Sort = true
+			return c
+		}})
+
+	// a file with a go_package option (a real Go import path, as production .proto files have): the
+	// path of a top-level message is then <proto package>.<Name> unless the generator maps it to the bare name
+	add(&Program{Name: "P-gopkg", Quick: true,
+		File: func() *FileSpec {
+			g1 := msg("G1", nil, fld("Own", TString), mfld("Sub", "Leaf"), mfld("L", "Leaf").rep(), tsfld("Ts"), efld("Mode", "Mode"))
+			return &FileSpec{Name: "p.proto", GoPackage: modName + "/" + pkgName + ";" + pkgName, Enums: []*d.EnumDescriptorProto{modeEnum()}, Msgs: []*M{leafMsg(), g1}}
+		},
+		Cfg: func() *Config { return baseConfig("G1") }})
+
 	add(&Program{Name: "P-empty", Quick: true,
 		File: func() *FileSpec {
 			em := msg("Em", []string{"O"}, fld("Own", TString), mfld("E", "Empty"), mfld("EV", "Empty").nonnull(),
